@@ -213,6 +213,10 @@ def step (s : S) (line : String) : S × String :=
     let sc := (parseIList ((arg? ws "sc").getD "-")).map fun (i : Int) => (Float32.ofInt i)
     match a.expectScore ((argNat? ws "x").getD 0) sc (parseFList ((arg? ws "p").getD "-")) with
     | some r => (s, s!"ok {if a.xIsResidue ((argNat? ws "x").getD 0) then roundI r else 0}") | none => (s, "fault")
+  else if op == "match" then
+    let p := (arg? ws "p").map parseDList
+    match a.matchProb ((argNat? ws "x").getD 0) ((argNat? ws "y").getD 0) p with
+    | some r => (s, s!"ok {dnum r}") | none => (s, "fault")
   else if op == "sqroundtrip" then
     let txt := argBytes ws "hex"
     if cstr txt ≠ txt then (s, "bad-op") else
